@@ -30,6 +30,8 @@ package cert
 //@   ensures @C05 forall a in [0, 14) :: has(keyTypes, a) && keyTypes[a] == (if a <= 3 then 0 else 1)
 //@   ensures @C02 snMax != nil && BigVal(snMax) == pow2(159)
 //@   ensures @C07 oidAiaOcsp != nil && len(oidAiaOcsp) == 9 && oidv(oidAiaOcsp) == #oidAdOcsp
+//@   ensures @C07 len(extKeyUsages) == 6 && (forall i in [0, 6) :: extKeyUsages[i] != nil && oidv(extKeyUsages[i]) == specEkuOid(i))
+//@   ensures @C07 ocspNoCheck.Critical == false && ocspNoCheckCritical.Critical == true && oidv(ocspNoCheck.Id) == specExtOid(12) && oidv(ocspNoCheckCritical.Id) == specExtOid(12) && len(ocspNoCheck.Value) == 2 && ocspNoCheck.Value[0] == 5 && ocspNoCheck.Value[1] == 0 && len(ocspNoCheckCritical.Value) == 2 && ocspNoCheckCritical.Value[0] == 5 && ocspNoCheckCritical.Value[1] == 0
 //@   ensures @C06,C07 len(oids) == 13 && (forall i in [0, 13) :: oids[i] != nil && oidv(oids[i]) == specExtOid(i))
 //@   ensures @C06,C07 oidExtensionSubjectKeyId != nil && oidv(oidExtensionSubjectKeyId) == specExtOid(0) && oidExtensionKeyUsage != nil && oidv(oidExtensionKeyUsage) == specExtOid(1) && oidExtensionExtendedKeyUsage != nil && oidv(oidExtensionExtendedKeyUsage) == specExtOid(2) && oidExtensionAuthorityKeyId != nil && oidv(oidExtensionAuthorityKeyId) == specExtOid(3) && oidExtensionBasicConstraints != nil && oidv(oidExtensionBasicConstraints) == specExtOid(4) && oidExtensionSubjectAltName != nil && oidv(oidExtensionSubjectAltName) == specExtOid(5) && oidExtensionCertificatePolicies != nil && oidv(oidExtensionCertificatePolicies) == specExtOid(6) && oidExtensionAuthorityInfoAccess != nil && oidv(oidExtensionAuthorityInfoAccess) == specExtOid(9) && oidExtensionAdmission != nil && oidv(oidExtensionAdmission) == specExtOid(11) && oidExtensionOcspNoCheck != nil && oidv(oidExtensionOcspNoCheck) == specExtOid(12)
 
@@ -197,6 +199,7 @@ package cert
 //@   uses ext.smt2
 //@   given EXTOIDS
 //@   ensures @C06 res.Critical == critical && oidv(res.Id) == specExtOid(4)
+//@   ensures @C07 bytes(res.Value) == bcDer(isCa, pathLen)
 
 //@ func NewCertificatePolicies returns (res, err)
 //@   props C06 C07
@@ -225,8 +228,9 @@ package cert
 //@ func NewOcspNoCheck returns (res)
 //@   props C06 C07
 //@   uses ext.smt2
-//@   given ocspNoCheck.Critical == false && ocspNoCheckCritical.Critical == true && oidv(ocspNoCheck.Id) == specExtOid(12) && oidv(ocspNoCheckCritical.Id) == specExtOid(12)
+//@   given ocspNoCheck.Critical == false && ocspNoCheckCritical.Critical == true && oidv(ocspNoCheck.Id) == specExtOid(12) && oidv(ocspNoCheckCritical.Id) == specExtOid(12) && len(ocspNoCheck.Value) == 2 && ocspNoCheck.Value[0] == 5 && ocspNoCheck.Value[1] == 0 && len(ocspNoCheckCritical.Value) == 2 && ocspNoCheckCritical.Value[0] == 5 && ocspNoCheckCritical.Value[1] == 0
 //@   ensures @C06 res.Critical == critical && oidv(res.Id) == specExtOid(12)
+//@   ensures @C07 bytes(res.Value) == bcat(bunit(b8(5)), bunit(b8(0)))
 
 // Key identifiers (C01, C07): SHA-1 over the subject's public key bits / the issuer's public key bits
 //@ func NewSubjectKeyIdentifier returns (res, err)
@@ -308,3 +312,18 @@ package cert
 //@   ensures @C06 err == nil ==> res != nil && res.Critical == critical && oidv(res.Id) == specExtOid(11)
 //@   ensures @C16 err == nil ==> bytes(res.Value) == tlv(0, 16, true, bcat((if admission.AdmissionAuthority != nil then gnDer(admission.AdmissionAuthority) else #bempty), tlv(0, 16, true, catAx(old(seq(admission.Contents)), 0, #bempty))))
 //@   ensures err != nil ==> res == nil
+
+// Interface dispatch facts: a value of one of the four GeneralName types, boxed into the interface, has the DER that its
+// own marshal method is proved to produce (the interface contract names that DER gnDer).
+//@ prelude ext.smt2
+//@ boxfact GeneralNameRFC822 gnDer(box) == tlv(2, 1, false, strBytes(val))
+//@ boxfact GeneralNameDNS gnDer(box) == tlv(2, 2, false, strBytes(val))
+//@ boxfact GeneralNameURI gnDer(box) == tlv(2, 6, false, strBytes(val))
+//@ boxfact GeneralNameIP gnDer(box) == tlv(2, 7, false, bcat(bcat(bcat(bunit(val[0]), bunit(val[1])), bunit(val[2])), bunit(val[3])))
+
+//@ func GetExtendedKeyUsage returns (oid, ok)
+//@   props C07
+//@   uses ext.smt2
+//@   given len(extKeyUsages) == 6 && (forall i in [0, 6) :: extKeyUsages[i] != nil && oidv(extKeyUsages[i]) == specEkuOid(i))
+//@   ensures @C07 ok == (k < 6)
+//@   ensures @C07 ok ==> oid != nil && oidv(oid) == specEkuOid(k)
